@@ -36,7 +36,8 @@ LAWS = ["eq-total", "reflexive", "symmetric", "complement", "eq-iff-same-literal
         "div-componentwise", "eq-transitive", "lt-transitive", "lt-respects-eq", "lt-irreflexive",
         "neg-involutive", "neg-is-additive-inverse", "neg-componentwise", "div-by-number-componentwise",
         "symmetric-across-provenance",
-        "step-independent-of-history", "step-equals-application-on-fresh-values", "history-bindings-evaluate"]
+        "step-independent-of-history", "step-equals-application-on-fresh-values", "history-bindings-evaluate",
+        "mixed-order-total", "mixed-order-consistent", "mixed-order-flips", "compound-assignment-is-the-operator"]
 # history templates of SyltComposite!HistTemplates and the shapes of SyltComposite!HistTable: each must be judged
 TEMPLATES = ["eq-left", "eq-repeat", "eq-flip", "eq-right", "eq-inside", "eq-mixed", "ord-left", "ord-right", "le-left", "ord-flip",
              "ord-repeat", "ord-then-eq", "ord-inside", "add-repeat", "add-left", "arith-left", "arith-right", "sub-flip", "mul-div",
@@ -60,15 +61,18 @@ MUTATIONS = [("lt-first-only", "<", "tuple"), ("le-is-lt", "<=", "tuple"), ("tup
              # stateful runtimes: only a HISTORY (several applications over the same objects) can notice them
              ("list-eq-sticky-seen", "==", "list", "hist:"), ("tuple-lt-memo", "<", "tuple", "hist:"),
              ("tuple-add-in-place", "+", "tuple", "hist:"), ("blob-eq-caches-left", "==", "blob", "hist:"),
-             ("variant-eq-sticky", "==", "enum", "hist:")]
+             ("variant-eq-sticky", "==", "enum", "hist:"),
+             # replicas of the seeded faults 4 and 5: only numeric-looking strings / extreme integers notice them
+             ("add-via-string-metatable", "+", "str", "", "numstr"), ("tuple-cmp-subtracts", "<", "tuple", "", "bigint")]
+MIN_MUTATIONS_NOTICED = 12     # a restructured runtime may make some patches inapplicable (recorded), never most of them
 SPEC_FAULTS = ["lt-first-only", "eq-ignores-last", "sub-swapped"]
 
 
 # --------------------------------------------------------------------------- cases
 
 def kind_of(shape):
-    k = shape.split("(")[0].split("/")[0]
-    return "number" if k in ("int", "float") else k
+    k = shape.split("~")[0].split("(")[0].split("/")[0]          # "l~r": mixed int / float ordering, the left type
+    return {"int": "number", "float": "number", "bigint": "number", "bigfloat": "number", "numstr": "str"}.get(k, k)
 
 
 def cell(item):
@@ -122,10 +126,14 @@ def signature(item, failure):
 
 
 def universe(wd, name, env, timeout):
-    r = vlib.tlc("MC_Composite", wd=wd, env=env, workers=WORKERS, tags=("REPLAY", "DECLS"), timeout=timeout,
+    r = vlib.tlc("MC_Composite", wd=wd, env=env, workers=WORKERS, tags=("REPLAY", "DECLS", "ALIAS"), timeout=timeout,
                  coverage=False, out_file=os.path.join(wd, "tlc-%s.out" % name))
     vlib.require_tlc_ok(r, "SyltComposite laws on the %s universe" % name)
     decls = [c for t, c in r.records if t == "DECLS"]
+    alias = [c for t, c in r.records if t == "ALIAS"]
+    if not alias:
+        vlib.tool_error("TLC printed no ALIAS record for " + name)
+    ALIAS[:] = alias[0]
     seen, recs = set(), []
     for t, c in r.records:
         if t == "REPLAY":
@@ -141,8 +149,11 @@ def universe(wd, name, env, timeout):
     return r, decls[0], recs
 
 
+ALIAS = []     # SyltComposite!Alias as printed by TLC: spec number -> real literal (the replayer substitutes)
+
+
 def mk_batch(c, decls):
-    b = {"id": c["id"], "shape": c["shape"], "decls": decls, "items": c["items"]}
+    b = {"id": c["id"], "shape": c["shape"], "decls": decls, "items": c["items"], "alias": ALIAS}
     if c.get("binds"):
         b["binds"] = c["binds"]            # a history batch: binds[h-1] are the bindings of history h, items carry h and k
     return b
@@ -204,6 +215,12 @@ def judge(batches, results, verdicts, stats, decls):
             stats["judged_keys"].add(vlib.sha([it["e"], it["want"]] + ([b["id"], it["h"], it["k"]] if "binds" in b else [])))
             if nesting(it["shape"]) >= 2:
                 stats["nested_judged"] += 1
+            if "bigint" in it["shape"] and "~" not in it["shape"]:
+                key = "extreme integers: %s on %s" % ("ordering" if it["op"] in ORD else "equality", "tuples" if c[1] == "tuple" else "other values")
+                stats["special"][key] = stats["special"].get(key, 0) + 1
+            if "numstr" in it["shape"] and it["op"] in ("+", "+="):
+                key = "numeric-looking strings: %s %s" % (it["op"], "alone" if c[1] == "str" else "as tuple components")
+                stats["special"][key] = stats["special"].get(key, 0) + 1
             if it["form"].startswith("hist:"):
                 stats["hist_templates"][it["form"].split(":")[1]] = stats["hist_templates"].get(it["form"].split(":")[1], 0) + 1
                 stats["hist_shapes"][b["shape"]] = stats["hist_shapes"].get(b["shape"], 0) + 1
@@ -224,7 +241,7 @@ def judge(batches, results, verdicts, stats, decls):
                 where or "%s on %s" % (it["op"], it["shape"]), show(it["want"]),
                 ("printed %s" % ", ".join((d or {}).get("got", ["?"])[:3])) if v.startswith("mismatch") else
                 ("stopped with %s" % (d or {}).get("status", v)))
-            verdicts.add(sig, what, {"batch": b["id"], "decls": decls, "item": it, **({"hist": history_of(b, it)} if "binds" in b else {}),
+            verdicts.add(sig, what, {"batch": b["id"], "decls": decls, "alias": b.get("alias", []), "item": it, **({"hist": history_of(b, it)} if "binds" in b else {}),
                                      "observed": {k: (d or {}).get(k) for k in ("verdict", "want", "got", "status", "detail", "source")}})
 
 
@@ -277,7 +294,7 @@ def control_expectations(wd, batches, results, decls, per_cell=6, skip=()):
     missing = [c for c in REQUIRED if taken.get(c, 0) == 0 and c not in skip]
     if missing or len(picked) < 60:
         vlib.tool_error("negative control: no agreeing item to corrupt in %s (%d picked)" % (missing, len(picked)))
-    nb = [{"id": {"kind": "control", "t": 0, "c": i}, "decls": decls, "items": picked[i:i + 12]} for i in range(0, len(picked), 12)]
+    nb = [{"id": {"kind": "control", "t": 0, "c": i}, "decls": decls, "alias": ALIAS, "items": picked[i:i + 12]} for i in range(0, len(picked), 12)]
     res, _ = replay(wd, "control", nb)
     accepted = [it for b, r in zip(nb, res) for it, v in zip(b["items"], r["verdicts"]) if v != "mismatch"]
     hb, at = [], []
@@ -307,33 +324,52 @@ def control_mutations(wd, batches, results, skip=()):
     order = list(range(len(batches)))
     off = (vlib.seed() * 7) % max(1, len(order))
     order = order[off:] + order[:off]
-    for name, op, kind, *form in MUTATIONS:
-        form = form[0] if form else ""
+    inapplicable = []
+    for name, op, kind, *more in MUTATIONS:
+        form = more[0] if more else ""
+        shp = more[1] if len(more) > 1 else ""
 
         def target(it):
-            return cell(it) == (op, kind) and it["form"].startswith(form)
+            return cell(it) == (op, kind) and it["form"].startswith(form) and shp in it["shape"]
         if os.environ.get("C19_PREAMBLE_PATCH") == name or (op, kind) in skip:
             continue                       # demonstration run: this mutation is already in the results that are being judged
         by_shape = {}
         for bi in order:
             b, r = batches[bi], results[bi]
-            hit = [it["shape"] for it, v in zip(b["items"], r["verdicts"]) if target(it) and v == "ok"]
-            if hit and len(by_shape.setdefault(hit[0], [])) < (40 if form else 2):     # some batches of every shape that has the cell
-                by_shape[hit[0]].append(bi)
+            hit = [it for it, v in zip(b["items"], r["verdicts"]) if target(it) and v == "ok"]
+            if not hit:
+                continue
+            if (op in EQ or op in ORD) and len({it["want"].get("v") for it in hit}) < 2:
+                continue                   # a batch in which the operator has one expected outcome only says little
+            by_shape.setdefault((hit[0]["shape"], b["id"]["kind"]), []).append(bi)
+        for key, bis in by_shape.items():  # some batches of every shape and job kind that has the cell, evenly spread
+            n = 40 if form else 3
+            by_shape[key] = bis if len(bis) <= n else [bis[(k * len(bis)) // n] for k in range(n)]
         sel = [bi for bis in by_shape.values() for bi in bis]
+        if not sel and any(v0 in FAILURES and target(it) for b, r in zip(batches, results) for it, v0 in zip(b["items"], r["verdicts"])):
+            inapplicable.append(name + " (its operator already fails on these values in the run being judged)")
+            continue
         if not sel:
             vlib.tool_error("negative control: no batch exercises %s on %s (%s)" % (op, kind, form or "any form"))
         res, _ = replay(wd, "mut-" + name, [batches[bi] for bi in sel], patch=name)
+        if any(r.get("patch") == "inapplicable" for r in res):
+            inapplicable.append(name)      # the runtime no longer has the definition this patch overrides
+            continue
         n = 0
         for bi, r in zip(sel, res):
             for it, v0, v in zip(batches[bi]["items"], results[bi]["verdicts"], r["verdicts"]):
                 if v0 == "ok" and v in FAILURES and target(it):
                     n += 1
+        if n == 0 and any(v0 in FAILURES and target(it) for b, r in zip(batches, results) for it, v0 in zip(b["items"], r["verdicts"])):
+            inapplicable.append(name + " (its operator already fails on these values in the run being judged)")
+            continue
         if n == 0:
             vlib.tool_error("negative control: the emitted-Lua mutation %s was not noticed on `%s` of %s values%s" % (
                 name, op, kind, " in the histories" if form else ""))
         caught[name] = n
-    return caught
+    if len(caught) < MIN_MUTATIONS_NOTICED and not os.environ.get("C19_PREAMBLE_PATCH"):
+        vlib.tool_error("negative control: only %d emitted-Lua mutations could be applied (inapplicable: %s)" % (len(caught), inapplicable))
+    return caught, inapplicable
 
 
 def control_spec_faults(wd):
@@ -374,7 +410,7 @@ def guards(tier, stats, recs_by_universe, laws_checked, reported=()):
     for recs in recs_by_universe.values():
         for c in recs:
             kinds[c["id"]["kind"]] = kinds.get(c["id"]["kind"], 0) + 1
-    need = ["pairs", "neg", "divn", "trans", "prov", "alias", "hist"] + (["diag"] if tier == "quick" else ["deep"])
+    need = ["pairs", "neg", "divn", "trans", "prov", "alias", "hist", "mixed", "cassign"] + (["diag"] if tier == "quick" else ["deep"])
     for k in need:
         if kinds.get(k, 0) == 0:
             vlib.tool_error("vacuity: no job of kind %s ran in TLC" % k)
@@ -391,6 +427,9 @@ def guards(tier, stats, recs_by_universe, laws_checked, reported=()):
                 op, kind, cs["judged"], cs["not_exercisable"], json.dumps(list(stats["not_exercisable_examples"].values())[:1])[:800]))
         if (op in EQ or op in ORD) and (cs["true"] == 0 or cs["false"] == 0):
             vlib.tool_error("vacuity: `%s` on %s values has only one expected outcome (%d true, %d false)" % (op, kind, cs["true"], cs["false"]))
+    for what, n in stats["special"].items():
+        if n < 40:
+            vlib.tool_error("vacuity: %s judged on %d items only" % (what, n))
     for t in TEMPLATES:
         if stats["hist_templates"].get(t, 0) < 20:
             vlib.tool_error("vacuity: history template %s was judged on %d steps only" % (t, stats["hist_templates"].get(t, 0)))
@@ -413,7 +452,11 @@ def guards(tier, stats, recs_by_universe, laws_checked, reported=()):
 
 def new_stats():
     return {"programs": 0, "paths": {}, "verdicts": {}, "cells": {}, "signatures": {}, "not_exercisable_examples": {},
-            "judged_keys": set(), "nested_judged": 0, "dropped": 0, "rejected_item": {}, "hist_templates": {}, "hist_shapes": {}}
+            "judged_keys": set(), "nested_judged": 0, "dropped": 0, "rejected_item": {}, "hist_templates": {}, "hist_shapes": {},
+            "special": {"extreme integers: ordering on tuples": 0, "extreme integers: equality on tuples": 0,
+                        "extreme integers: ordering on other values": 0, "extreme integers: equality on other values": 0,
+                        "numeric-looking strings: + alone": 0, "numeric-looking strings: + as tuple components": 0,
+                        "numeric-looking strings: += alone": 0, "numeric-looking strings: += as tuple components": 0}}
 
 
 # --------------------------------------------------------------------------- entry
@@ -428,7 +471,7 @@ def run(ctx):
 
     if ctx.replay:
         rp = json.load(open(ctx.replay))["replay"]
-        batches = [{"id": rp["batch"], "shape": rp["item"]["shape"], "decls": rp["decls"], "items": [rp["item"]]}]
+        batches = [{"id": rp["batch"], "shape": rp["item"]["shape"], "decls": rp["decls"], "alias": rp.get("alias", []), "items": [rp["item"]]}]
         if rp.get("hist"):                 # the history up to the reported step, as history number 1
             steps = [dict(x, h=1) for x in rp["hist"]["steps"]]
             batches[0].update(items=steps, binds=[rp["hist"]["binds"]])
@@ -481,7 +524,7 @@ def run(ctx):
     reported = report_rejected_cells(stats, verdicts, decls)
     guards(tier, stats, recs_by, laws_checked, reported)
     n_corrupt = control_expectations(wd, all_batches, all_results, decls, skip=reported)
-    caught = control_mutations(wd, all_batches, all_results, skip=reported)
+    caught, inapplicable = control_mutations(wd, all_batches, all_results, skip=reported)
     faults = control_spec_faults(wd)
 
     # 3. evidence
@@ -505,9 +548,11 @@ def run(ctx):
            not_exercisable=stats["verdicts"].get("not_exercisable", 0) + stats["verdicts"].get("panic", 0),
            not_exercisable_examples=stats["not_exercisable_examples"], outside_numeric_model=stats["dropped"],
            nested_applications_judged=stats["nested_judged"],
+           extreme_and_numeric_looking=stats["special"], alias_map=ALIAS,
            history_steps_per_template=stats["hist_templates"], history_steps_per_shape=stats["hist_shapes"], violation_signatures=stats["signatures"],
            negative_controls_rejected=n_corrupt + len(caught) + len(faults),
            negative_controls={"corrupted_expectations_rejected": n_corrupt, "emitted_lua_mutations_noticed": caught,
+                              "emitted_lua_mutations_inapplicable": inapplicable,
                               "specification_faults_rejected_by_tlc": faults},
            known_findings_hit=verdicts.known_hits, exhaustive=(tier == "thorough"),
            rule="value expressions of the 32 types of SyltComposite!TypeTable (scalars, tuples, lists, blobs, enum values, nesting depth <= 2, "
@@ -515,10 +560,14 @@ def run(ctx):
                 "by the seed, plus the whole diagonal; thorough: all pairs, plus sampled pairs of 7 depth-3 types), every operator the property names "
                 "for the type, unary minus, tuple / number, 38 mixed-provenance pairs and v op v on one object; HISTORIES: every triple (quick: every s-th) "
                 "of values of 13 types bound to three variables and each of the 21 templates of 3 applications over those variables (same object left, "
-                "right, repeated, inside a fresh tuple / list), expected values threaded through one state; an application is non-trivial when "
+                "right, repeated, inside a fresh tuple / list), expected values threaded through one state; extreme integers / floats (+-2^63, 2^53, 2^53+1) as "
+                "order-preserving aliases in comparisons and equality, int against float ordering, strings that look like numbers under + and +=; "
+                "an application is non-trivial when "
                 "the compiler accepted it and the program ran, distinct = distinct (expression, expected value)",
            samples=samples)
-    ev.assume("minilua stands in for Lua 5.3 (no Lua interpreter exists in the sandbox)",
+    ev.assume("the extreme numbers are aliases: the specification orders small stand-ins, the program text holds the real literals; the map is "
+              "strictly increasing (checked by TLC on the stand-ins and by c19 on the real values), so only comparisons and equality use them",
+              "minilua stands in for Lua 5.3 (no Lua interpreter exists in the sandbox)",
               "numbers are compared after normalising 2.0 to 2 on both sides; results outside the dyadic model (inexact quotients, division by "
               "zero, IEEE negative zero) are dropped by the specification, never judged",
               "strings are over {a, b}; their order is the byte order",
